@@ -464,7 +464,7 @@ func e2eRun(t *testing.T, out *verifh.Out, tpt int, dir int, v6 bool, withMapped
 	}
 
 	line := []int64{1, int64(dir), int64(tpt)}
-	ctx, cancel := context.WithTimeout(context.Background(), 4*time.Second)
+	ctx, cancel := context.WithTimeout(context.Background(), 12*time.Second)
 	defer cancel()
 	var addrsEnc []int64
 	reachable := int64(1)
@@ -621,4 +621,60 @@ func TestVerifC10E2E(t *testing.T) {
 		}(j)
 	}
 	wg.Wait()
+}
+
+// TestVerifC10E2EReplay re-runs one recorded end-to-end case (VERIF_REPLAY_CASE)
+// on the implementation and writes the case with what is observed now.
+func TestVerifC10E2EReplay(t *testing.T) {
+	out, err := verifh.Open()
+	if err != nil {
+		t.Fatal(err)
+	}
+	defer out.Close()
+	in := verifh.ReplayCase()
+	if len(in) < 8 || in[0] != 1 {
+		t.Skip("not an end-to-end case")
+	}
+	dir, tpt := int(in[1]), int(in[2])
+	nc := int(in[4])
+	pos := 5
+	decIP := func(f []int64) net.IP {
+		if f[0] == 4 {
+			ip := make(net.IP, 4)
+			binary.BigEndian.PutUint32(ip, uint32(f[4]))
+			return ip
+		}
+		ip := make(net.IP, 16)
+		for i := 0; i < 4; i++ {
+			binary.BigEndian.PutUint32(ip[4*i:], uint32(f[1+i]))
+		}
+		return ip
+	}
+	var calls []e2eCall
+	for i := 0; i < nc; i++ {
+		f := in[pos : pos+10]
+		pos += 10
+		if f[0] == 4 {
+			calls = append(calls, e2eCall{ev: 4})
+			continue
+		}
+		c := e2eCall{opk: int(f[1]), kind: int(f[2])}
+		switch f[2] {
+		case 0:
+			c.p = int(f[3])
+		case 1:
+			c.ip = decIP(f[3:8])
+		default:
+			bits := 32
+			if f[8] != 0 {
+				bits = 128
+			}
+			c.n = &net.IPNet{IP: decIP(f[3:8]), Mask: net.CIDRMask(int(f[9]), bits)}
+		}
+		calls = append(calls, c)
+	}
+	na := int(in[pos+1])
+	first := in[pos+2 : pos+8]
+	v6 := first[1] == 16 && !(first[2] == 0 && first[3] == 0 && first[4] == 0xffff)
+	e2eRun(t, out, tpt, dir, v6, na > 1, calls, 200)
 }
